@@ -240,7 +240,8 @@ def run(ctx):
         nchunks = ctx.scale(8, 64)
         for i, rnd in ctx.cases("random", len(names) * nchunks):
             name = names[i % len(names)]
-            norm = getattr(fl, name)()
+            fm = fl.settings.factory_manager
+            norm = getattr(fl, name)() if i % 3 else (fm.tnorm if name in R.TNORMS else fm.snorm).construct(name)
             k = max(8, nrand // nchunks)
             a = specials(rnd, k)
             b = specials(rnd, k)
